@@ -20,6 +20,7 @@ fn main() {
         std::process::exit(if c17::replay(&serde_json::Value::Null) { 0 } else { 1 });
     }
     let mut run = mcx::Run::new("C17", &tier);
+    mcx::watch::start("C17", &tier, std::time::Duration::from_secs(120));
     if let Err(p) = mcx::guarded(|| c17::run(&mut run)) {
         eprintln!("MACHINERY: the check itself panicked: {p}");
         std::process::exit(2);
